@@ -96,6 +96,9 @@ func init() {
 			c.ruleFixCursor()
 			c.ruleFreshAppendBase()
 			c.ruleValueCopyMutator("R-VALUECOPY", triedbDir)
+			c.ruleTriedbRemoveMatch()
+			c.ruleTriedbNilValue()
+			c.ruleTriedbKeyClone()
 			c.min("R-KEYMATCH/triedb", 3)
 			c.min("R-NEWVALUE", 3)
 		})
@@ -417,6 +420,9 @@ func init() {
 		func(c *Ctx) {
 			c.load("pkg/trie", "pkg/trie/inmemory", "pkg/trie/node", "pkg/trie/inmemory/proof", "pkg/trie/db", "pkg/scale", "pkg/trie/codec")
 			c.ruleProofHash()
+			c.ruleProofChild()
+			c.ruleProofValue()
+			c.min("R-PROOFVALUE", 2)
 			c.ruleNilDecode("R-NILDECODE", false, "pkg/trie/inmemory/proof")
 			c.ruleNilDecode("R-NILDECODE-trusted-db", true, "pkg/trie/inmemory")
 			c.min("R-NILDECODE", 2)
